@@ -295,7 +295,7 @@ def run(ctx):
         ctx.violation(sig, {'row': x, 'observed': o},
                       'row %d (%s, n=%d): %s is false on the real processes: sidecars=%d uploaders=%d nested=%d launched=%d acquired=%s wrote=%s; changed: %s; process log: %s' % (
                           x['id'], row_text(x), o['n'], clause, o['sidecars'], o['uploaders'], o['nested'], o['launched'], o['acquired'], o['wrote'],
-                          o['changed'][:8], json.dumps([(e['pid'], e['lineage'], e['marker'], e['upvar'], e['role']) for e in o['entries']][:8])))
+                          (o['changed'] or [])[:8], json.dumps([(e['pid'], e['lineage'], e['marker'], e['upvar'], e['role']) for e in (o['entries'] or [])][:8])))
     ndiv = 0
     for idx in sorted(diverged):
         if idx in badidx:
